@@ -321,6 +321,10 @@ class Check:
     def known(self, case, impl):
         return None
 
+    def evalA_ok(self, line):
+        """may this line be re-evaluated by coqc vm_compute (cheap enough)?"""
+        return True
+
     def extra_coverage(self, cases, impl, model):
         return {}
 
@@ -402,7 +406,7 @@ def run_check(chk, tier, replay=None):
     idx = list(range(len(cases)))
     rng.shuffle(idx)
     sample = sorted(idx[:chk.evalA_sample if not thorough else chk.evalA_sample * 3])
-    sample = [i for i in sample if len(lines[i]) < 4000]
+    sample = [i for i in sample if len(lines[i]) < 4000 and chk.evalA_ok(lines[i])]
     bad = run_evalA([(lines[i], model[i]) for i in sample], pid)
     if bad:
         raise Infra("evaluators A and B disagree on %r" % lines[sample[bad[0]]][:300])
